@@ -274,9 +274,9 @@ func isDouble(n *pb.Notification) bool {
 
 // cacheState is what the classifier may know about the cache before the call.
 type cacheState struct {
-	targetEmpty  bool                                   // the addressed target held no leaf
-	stored       func(idx []string) *pb.Notification    // the leaf stored at idx in the addressed target, if any
-	confusedMeta bool                                   // some leaf under meta/ holds a value of another type than the registered entry
+	targetEmpty  bool                                // the addressed target held no leaf
+	stored       func(idx []string) *pb.Notification // the leaf stored at idx in the addressed target, if any
+	confusedMeta bool                                // some leaf under meta/ holds a value of another type than the registered entry
 }
 
 // cornersOf lists the named hostile corners a notification exercises in the
